@@ -293,5 +293,15 @@ def gen_file(rng, lang, idx, M, L, nclasses, with_noise=True):
             if f_.get("host"):
                 facts.append(f_.pop("host"))
         else:
-            facts.append(render_rs(rng, spec, out))
+            f_ = render_rs(rng, spec, out)
+            facts.append(f_)
+            if not f_["keyword"] and rng.random() < 0.25:
+                # another module may declare a type of the same name: it has no methods of its own, whatever its namesake has
+                out.blank()
+                out.code("mod shadow_%d {" % c)
+                out.code("    pub struct %s {" % spec["name"])
+                out.code("        other: i64,")
+                out.code("    }")
+                out.code("}")
+                facts.append({"name": spec["name"], "line": len(out.lines) - 3, "form": "shadow", "methods": 0, "loc": 3, "keyword": False, "has_noise": False, "span": 3})
     return "\n".join(out.lines) + "\n", facts
